@@ -982,7 +982,10 @@ def hand_pins(db):
     # canonical.rs without its test module
     src = db.raw["fuel-types/src/canonical.rs"]
     k = src.find("#[cfg(test)]")
-    core = re.sub(r"\s+", " ", src[:k] if k >= 0 else src).strip()
+    core = src[:k] if k >= 0 else src
+    # the value of VEC_DECODE_LIMIT is a parameter of the model (emitted as vec_decode_limit)
+    core = re.sub(r"(pub const VEC_DECODE_LIMIT\s*:\s*usize\s*=)[^;]+;", r"\1 <value>;", core)
+    core = re.sub(r"\s+", " ", core).strip()
     pins["canonical.rs"] = hashlib.sha256(core.encode()).hexdigest()[:16]
     # the derive itself (the generic TStruct/TEnum semantics is a hand model of this code)
     for f in ("serialize.rs", "deserialize.rs", "attribute.rs"):
@@ -1004,7 +1007,7 @@ EXPECTED_PINS = {
     "PoliciesBits": "aa55238c0a30df08",
     "Transaction::Deserialize": "d413b8774acb1a4e",
     "Transaction::Serialize": "ebd6f19fc1f81dd0",
-    "canonical.rs": "d8620edf9293e213",
+    "canonical.rs": "1aba030c9caa51b7",
     "fuel-derive/attribute.rs": "910954efa118bc34",
     "fuel-derive/deserialize.rs": "849d66f007b59902",
     "fuel-derive/serialize.rs": "972d040d60725e8e",
